@@ -8,6 +8,7 @@ Open Scope Q_scope.
 
 Inductive seg :=
 | GLinear (inc : option Q * option Q * option Q) (abs : bool) (s : bool) (f : Q)
+| GLinearW (inc : option Q * option Q * option Q) (abs : bool) (s : bool) (f : Q)   (* linear with warp_flag: subdivided *)
 | GArc (dy r : Q) (s : bool) (f : Q)                       (* arc_bend *)
 | GArcCoupler (dy r il : Q) (s : bool) (f : Q)
 | GArcMzi (dy r il al : Q) (s : bool) (f : Q)
@@ -57,9 +58,28 @@ Definition arcs_ok (k : case) (dy r : Q) : bool :=
   let p0 := k_last k in let pe := lastp k in
   forallb (fun p => on_circle (lx p0) (ly p0 + sg * r) r p || on_circle (lx pe) (ly pe - sg * r) r p) (k_blk k).
 
+(* p lies on the straight segment from a to e (cross product ~ 0, projection inside) *)
+Definition on_segment (a e p : lpt) : bool :=
+  let '(dx, dy, dz) := (lx e - lx a, ly e - ly a, lz e - lz a) in
+  let '(ux, uy, uz) := (lx p - lx a, ly p - ly a, lz p - lz a) in
+  let t := (tol (lx p) + tol (ly p) + tol (lz p)) * 2 * (Qabs dx + Qabs dy + Qabs dz + 1) + (1 # 100000000) in
+  Qle_bool (Qabs (uy * dz - uz * dy)) t && Qle_bool (Qabs (uz * dx - ux * dz)) t && Qle_bool (Qabs (ux * dy - uy * dx)) t &&
+  Qle_bool (- t) (ux * dx + uy * dy + uz * dz) && Qle_bool (ux * dx + uy * dy + uz * dz) (sq dx + sq dy + sq dz + t).
+
 Definition check (k : case) : N :=
   let b := k_blk k in
   match k_seg k with
+  | GLinearW (dx, dy, dz) abs s f =>
+      let tx := if abs then match dx with Some v => v | None => lx (k_last k) end else lx (k_last k) + match dx with Some v => v | None => 0 end in
+      let ty := if abs then match dy with Some v => v | None => ly (k_last k) end else ly (k_last k) + match dy with Some v => v | None => 0 end in
+      let tz := if abs then match dz with Some v => v | None => lz (k_last k) end else lz (k_last k) + match dz with Some v => v | None => 0 end in
+      code_of [ Nat.eqb (length b) 1 || starts_here k s f;
+                close (lx (lastp k)) tx && close (ly (lastp k)) ty && close (lz (lastp k)) tz;
+                forallb (fun q => Bool.eqb (ls q) s && close (lf q) f) b;
+                (match dx with None => Qeq_bool (lx (lastp k)) (lx (k_last k)) | _ => true end) &&
+                (match dy with None => Qeq_bool (ly (lastp k)) (ly (k_last k)) | _ => true end) &&
+                (match dz with None => Qeq_bool (lz (lastp k)) (lz (k_last k)) | _ => true end);
+                forallb (on_segment (k_last k) (lastp k)) b ]
   | GLinear (dx, dy, dz) abs s f =>
       let tx := if abs then match dx with Some v => v | None => lx (k_last k) end else lx (k_last k) + match dx with Some v => v | None => 0 end in
       let ty := if abs then match dy with Some v => v | None => ly (k_last k) end else ly (k_last k) + match dy with Some v => v | None => 0 end in
